@@ -30,6 +30,7 @@ DECIDED = [
     'velocity and atmosphere corrections, 0 when twist, length, diameter or pressure is zero',
     'R4 at all row-creation sites the speed is the magnitude of the velocity passed, Mach reference comes from the '
     'density call, look angle and weight are the per-shot ones, spin drift is spin_drift(time passed)',
+    'R4b every atmosphere query that can reach a row asks for the altitude expression of the step\'s own query; a row site inside a nested function that reads loop variables as free variables is refuted (values of the time it runs, not of the sample)',
 ]
 NOT_DECIDED = ['nothing of substance: Mach of terminal rows uses the speed of sound of the previous sample '
                '(one step of altitude; recorded assumption)']
